@@ -114,7 +114,7 @@ fn segments() -> Vec<Seg> {
     v.push(Seg { text: "{bar:4}".into(), out: Some("░░░░".into()), brk_after: false });
     v.push(Seg { text: "{\n".into(), out: Some("{".into()), brk_after: true });
     v.push(Seg { text: "\n".into(), out: None, brk_after: false });
-    for (key, content) in [("k", "VAL"), ("zz", ""), ("msg", "M")] {
+    for (key, content) in [("k", "VAL"), ("zz", ""), ("msg", "M"), ("\"q\"", "")] {
         for (opt, width, align) in [
             ("", 0usize, '<'),
             (":", 0, '<'),
